@@ -815,6 +815,9 @@ def r18b_hoist_question_mark(text):
             # PREFIX must not contain a completed call / closing bracket
             if re.search(r"[)\]}]", prefix) or re.search(r"\b(if|match|while|for|return)\b", prefix):
                 continue
+            # a match-arm value (`PATTERN => EXPR?,`) is not a statement: a `let` cannot be hoisted in front of it
+            if "=>" in prefix:
+                continue
             # statement end
             e = q
             while e < len(m) and m[e] != ";":
